@@ -62,7 +62,7 @@ var headerLines = []string{
 	"P: 100% a%20b %s %d", "T: text/plain; \r\n charset=utf-8", "U: a\t\r\n\tb \r\n c", "V: x \n y", "WARC-Type: response", "warc-type:request", "Content-Length: 12", "content-length : 7 ", "X-Custom: a: b",
 	"WARC-Date: 2020-01-02T03:04:05Z", "WARC-Record-ID: <urn:uuid:1>", "NoColonHere", ": emptyname", "Name:",
 	"  leading: space", "folded: first", " continued", "\tcontinued tab", "x:y\rz", "caf\xc3\xa9: \xe2\x82\xac",
-	"A: =?utf-8?q?x?=", "B: =?utf-8?q?x=0D=0AEvil:_1?=", "C: =?utf-8?q?=3D=3Futf-8=3Fq=3Fy=3F=3D?=", "D: =?bogus?x?y?=",
+	"A: =?utf-8?q?x?=", "B: =?utf-8?q?x=0D=0AEvil:_1?=", "C: =?utf-8?q?=3D=3Futf-8=3Fq=3Fy=3F=3D?=", "D: =?bogus?x?y?=", "H: =?windows-1252?Q?caf=E9?=",
 	"E: =?utf-8?b?djEgCQ==?=", "F: =?utf-8?q?text/plain=0A?=", "G: a=?b", "\x00\x01: \x7f", "a b: c d", "Key: v\x0bw", "K\xc2\xa0: \xc2\xa0v\xc2\xa0",
 }
 var lineEnds = []string{"\r\n", "\r\n", "\r\n", "\r\n", "\n", "\r\r\n", "\r", ""}
@@ -127,6 +127,11 @@ func genHparse(r *rand.Rand, n int, tier string, out *bufio.Writer) {
 		tail := 0
 		if i%40 == 7 {
 			data = bigHeaderSection(r, r.Intn(140))
+		} else if i%1000 == 23 {
+			// one field folded over three long lines: every physical line is short of 4096 bytes, the
+			// unfolded field (one physical line when serialized again) is longer than 8192
+			k := 2800 + r.Intn(400)
+			data = []byte("Before: x\r\nL: " + strings.Repeat("a", k) + "\r\n " + strings.Repeat("b", k) + "\r\n\t" + strings.Repeat("c", k) + "\r\nAfter: y\r\n\r\n")
 		} else {
 			data = genHeaderSection(r)
 			if r.Intn(8) == 0 {
